@@ -243,3 +243,17 @@ Definition clear_rel (d : nat) (r : rel) : option rel :=
   | Some l, Some r' => Some (Rel l (rcmp r) r')
   | _, _ => None
   end.
+
+(* ---------------------------------------------------------------- simplify's treatment of the user's lines before isolation *)
+(* a line in which every variable cancels is returned as '' (dropped) when its comparator is '=' or '!=':
+   sympy finds nothing to solve for and _simplify1 returns the empty solution (inequalities raise instead) *)
+Definition dropped (r : rel) : bool :=
+  match degenerate r with Some _ => negb (is_ineq (rcmp r)) | None => false end.
+
+(* absval's inclusive merge (the identity up to duplicates unless two lines oppose each other), then the dropped lines *)
+Definition simplify_pre (lines : sys) : sys :=
+  filter (fun r => negb (dropped r)) (if no_opposing lines then lines else merge_incl lines).
+
+(* no dropped line is false somewhere *)
+Definition drops_only_true (lines : sys) : bool :=
+  forallb (fun r => if dropped r then match degenerate r with Some b => b | None => true end else true) lines.
